@@ -208,7 +208,7 @@ theorem flush_refused (g : Cfg) (s : S) (ks : List KAns) (hcs : s.closed = false
   rw [if_neg (by simp [hcs])] at hh hc hw
   split at hh
   · rename_i he
-    rw [if_pos he] at hw
+    rw [if_pos he, wl_cResetRead] at hw
     exact absurd (isEmpty_eq_true he) hw
   · rename_i he
     rw [if_neg he] at hc hw
